@@ -45,7 +45,8 @@ Problems(ev) ==
               [] op = "assignId" -> (IF NonDestructive(pre, post, {ev.c.item}) THEN {} ELSE {"existing id of another item changed"})
                                         \cup (IF post[ev.c.item] # NoneS /\ ev.r = post[ev.c.item] THEN {} ELSE {"item left without id / wrong id returned"})
                                         \cup (IF OnlyTouches(pre, post, {ev.c.item}) THEN {} ELSE {"another item was touched"})
-                                        \cup (IF Fresh(pre, post) THEN {} ELSE {"assigned id not fresh"}))
+                                        \* the item is given a new identifier even if it had one: it differs from everything present at the call
+                                        \cup (IF Fresh(pre, post) /\ post[ev.c.item] \notin Present(pre) THEN {} ELSE {"assigned id not fresh"}))
       \cup LookupProblems(ev, post)
 
 \* Known deviation AutoIdIgnoresMathIds: an automatic id equals an id carried by an element inside the MathML (which neither
